@@ -545,7 +545,37 @@ def r10_header_value_is_taken_whole(ctx):
     R.check(len(aggs) == 1 and aggs[0]["rv"].get("variant") == "Fixed" and not branches, "C14.R10", "port-from-u16:always-fixed", "a numeric port is always Port::Fixed(n)", "<Port as From<u16>>::from does not map every number to Port::Fixed (variants built: %s, %d branches): some port number is read as a wildcard / default, so an entry `host:<n>` admits requests on other ports" % (sorted(a["rv"].get("variant") for a in aggs), len(branches)), "%s:%d" % (fb.file, fb.lo))
 
 
-RULES = [r10_header_value_is_taken_whole, r8_ports_registered_per_host, r9_port_numbers_are_parsed_as_u16, r1_gate, r2_port_table, r3_authority_table, r4_default_port, r5_one_parser_and_enabled_filter, r6_both_sides_spell_hosts_alike, r7_parser_fails_closed, rstatus_http_status_table]
+def r11_request_headers_reach_the_filter_untouched(ctx):
+    """the authority the filter judges is the one the client sent: in the server crate the headers / URI of an incoming
+    request are modified only by the GET proxy, and there only by inserting Content-Type and Accept (and the fixed `/`
+    target): nothing copies the URI authority over the Host header on the way in (that hides a Host / authority
+    disagreement, which must be answered 400), and the proxy does not clear the headers (a proxied GET then reaches an
+    inner host filter without any authority and is refused although its Host matches the allow-list)."""
+    F, R = ctx.F, ctx.R
+    tr = ctx.tracer(follow_callers=False, follow_fields=False, inline_calls=False)
+    n = 0
+    PROXY = r"proxy_get_request::ProxyGetRequest<S> as tower::Service<hyper::Request<B>>>::call$"
+    for c in F.all_calls(r"Request::<.*>::(headers_mut|uri_mut|method_mut)$"):
+        b = c.body
+        if b.crate != SERVER or is_test_body(b):
+            continue
+        n += 1
+        R.fn(b)
+        R.check(bool(re.search(PROXY, b.path)), "C14.R11", "request-mutation:%s:%s" % (fkey(b), (c.name() or "").split("::")[-1]), "the request is modified by the GET proxy only", "%s modifies an incoming request (%s) before the HTTP middleware sees it: the host filter no longer judges the Host header / authority the client sent (a Host that disagrees with the URI authority is overwritten instead of being answered 400)" % (short(b.path), (c.name() or "").split("::")[-1]), where(c))
+    R.floor("C14.R11", n, 3, "request-mutation sites in the server crate")
+    for b in F.find(PROXY):
+        for c in b.calls_to(r"HeaderMap::<.*>::\w+$"):
+            op = (c.name() or "").split("::")[-1]
+            if op in ("get", "get_all", "contains_key", "iter", "len", "is_empty", "keys", "values"):
+                continue
+            ok = False
+            if op == "insert" and len(c.args) >= 2:
+                ks = [op_const(c.args[1])] + [l.detail for l in tr.origins(b, c.args[1]) if l.kind == "const"]
+                ok = any(k and re.search(r"header::(CONTENT_TYPE|ACCEPT)$", str(k.get("name", ""))) for k in ks)
+            R.check(ok, "C14.R11", "proxy:header-op:%s@%d" % (op, sorted(x.bb for x in b.calls_to(r"HeaderMap::<.*>::\w+$")).index(c.bb)), "the proxy only inserts Content-Type / Accept", "ProxyGetRequest::call performs `%s` on the request's headers: beyond adding Content-Type and Accept the proxy must leave the headers alone - clearing / removing them takes the Host header away from an inner host filter, which then refuses a request whose Host is allow-listed" % op, where(c))
+
+
+RULES = [r11_request_headers_reach_the_filter_untouched, r10_header_value_is_taken_whole, r8_ports_registered_per_host, r9_port_numbers_are_parsed_as_u16, r1_gate, r2_port_table, r3_authority_table, r4_default_port, r5_one_parser_and_enabled_filter, r6_both_sides_spell_hosts_alike, r7_parser_fails_closed, rstatus_http_status_table]
 
 LEVEL_TEXT = (
     "The gate (who may reach the inner service) is decided by dominance for every path of HostFilter::call, and the three "
